@@ -8,6 +8,8 @@ pub enum POp {
     Sleep(u64), // µs
     Push(u64),
     Unblock,
+    /// whole-server scenarios only: the producer's connection is closed
+    Close,
 }
 
 #[derive(Clone, Debug)]
@@ -64,17 +66,18 @@ pub fn gen(rng: &mut Rng) -> Scenario {
     Scenario { prods, cons }
 }
 
-fn enc_p(ops: &[POp]) -> String {
+pub fn enc_p(ops: &[POp]) -> String {
     ops.iter()
         .map(|o| match o {
             POp::Sleep(d) => format!("s{}", d),
             POp::Push(v) => format!("p{}", v),
             POp::Unblock => "u".to_string(),
+            POp::Close => "x".to_string(),
         })
         .collect::<Vec<_>>()
         .join(",")
 }
-fn enc_c(ops: &[COp]) -> String {
+pub fn enc_c(ops: &[COp]) -> String {
     ops.iter()
         .map(|o| match o {
             COp::Pop => "pop".to_string(),
@@ -147,6 +150,7 @@ pub fn run(id: usize, rng: &mut Rng) -> String {
                             sched::log("unblock");
                             q.unblock()
                         }
+                        POp::Close => {}
                     }
                 }
             });
@@ -252,7 +256,14 @@ pub fn map_labels(rep: &sched::Report) -> String {
                 in_wait.insert(e.tid, true);
             }
             "notify_one" if w.get(1).map_or(false, |s| s.starts_with("messages_queue.rs")) => {
-                if let Some(p) = pending_push.remove(&e.tid) {
+                // a notification without a marker from the harness: a push made inside the library
+                // (a connection thread queueing a request), reported without its value
+                let p = match pending_push.remove(&e.tid) {
+                    Some(p) => Some(p),
+                    None if !cons_of.contains_key(&e.tid) => Some("P".to_string()),
+                    None => None,
+                };
+                if let Some(p) = p {
                     let woke = match w.get(2) {
                         Some(x) if x.starts_with('t') => {
                             let tid: usize = x[1..].parse().unwrap_or(usize::MAX);
